@@ -5,10 +5,13 @@
 EXTENDS MSClean, Json, SequencesExt
 
 TN == {"x.mmm", "y.mmm", "x.ms", "x.mmm.bak", "x.transpiled.mmm", ".mmm", "mmm", "x.MMM", "x.mmm~",
-       "a b.mmm", "eé.mmm", "d.mmm", "..mmm", "x.", "sub"}
+       "a b.mmm", "e%C3%A9.mmm", "d.mmm", "..mmm", "x.", "sub"}
 TNQuick == {"x.mmm", "x.ms", "x.mmm.bak", "x.transpiled.mmm", ".mmm", "mmm", "x.MMM", "x.mmm~",
-       "a b.mmm", "eé.mmm", "d.mmm", "sub"}
+       "a b.mmm", "e%C3%A9.mmm", "d.mmm", "sub"}
 CN == {"x.mmm", "x.ms"}
+(* names are percent-encoded where they are not ASCII (the harness decodes them when it creates the *)
+(* tree and encodes what it finds afterwards): TLC's on-disk state queue does not round-trip       *)
+(* non-ASCII characters of string values (0xE9 comes back as 0xFFE9).                              *)
 
 Entries(t) == SetToSeq({[path |-> p, kind |-> t[p]] : p \in DOMAIN t})
 
